@@ -129,6 +129,8 @@ Section Embedding.
       | Some c =>
           if pystr_eqb a (s2p "get_all_fields_by_name()") then Some (fields_py (t_fields c))
           else if pystr_eqb a (s2p "_serialization_mapper") then mapper_attr (t_mapper c)
+          else if pystr_eqb a (s2p "_ignore_none") then (if t_ignore_none c then Some (PBool true) else None)
+          else if pystr_eqb a (s2p "__mro__") then Some (PList [ref o; ref (s2p "Structure")])   (* not Versioned *)
           else None
       | None => None
       end.
